@@ -66,6 +66,8 @@ type (
 	Finisher interface {
 		Finish(a *Aggregate) (broken []string)
 	}
+	// Auxer runs an auxiliary computation in a fresh process: `vh aux <prop> args...`, result on stdout.
+	Auxer interface{ Aux(args []string) int }
 	// Paralleler bounds the number of concurrent children.
 	Paralleler interface{ Parallel(tier string) int }
 )
@@ -156,6 +158,20 @@ func Main() {
 		os.Exit(parentMain(os.Args[2:]))
 	case "worker":
 		os.Exit(workerMain(os.Args[2:]))
+	case "aux":
+		// auxiliary fresh-process computations of a property (references, repetitions)
+		if len(os.Args) < 3 {
+			os.Exit(2)
+		}
+		p, ok := registry[os.Args[2]]
+		if !ok {
+			os.Exit(2)
+		}
+		a, ok := p.(Auxer)
+		if !ok {
+			os.Exit(2)
+		}
+		os.Exit(a.Aux(os.Args[3:]))
 	default:
 		fmt.Fprintln(os.Stderr, "unknown subcommand", os.Args[1])
 		os.Exit(2)
@@ -800,4 +816,20 @@ func replayMain(p Property, bin, path, work string) int {
 		return 1
 	}
 	return 0
+}
+
+// RunAux starts a fresh process of this binary running the property's Aux entry and returns its stdout.
+func RunAux(prop string, args ...string) ([]byte, error) {
+	self, err := os.Executable()
+	if err != nil {
+		return nil, err
+	}
+	cmd := exec.Command(self, append([]string{"aux", prop}, args...)...)
+	cmd.Env = append(os.Environ(), "VERIF_DIR="+VerifDir())
+	var out, errb bytes.Buffer
+	cmd.Stdout, cmd.Stderr = &out, &errb
+	if err := cmd.Run(); err != nil {
+		return out.Bytes(), fmt.Errorf("aux %s %v: %v: %s", prop, args, err, oneLine(errb.String(), 600))
+	}
+	return out.Bytes(), nil
 }
